@@ -831,6 +831,8 @@ pub fn log_op(h: &mut Hist, p: &Proxy, sender: &str, op: &Op, r: &Res<Response>)
 #[derive(Clone, Debug, Default, PartialEq)]
 pub struct Shadow {
     pub allow: BTreeMap<String, Allow>,
+    /// permissions as admins last set them
+    pub perms: BTreeMap<String, Perm>,
 }
 
 impl Shadow {
@@ -865,6 +867,9 @@ impl Shadow {
                         self.allow.remove(spender);
                     }
                 }
+            }
+            Op::SetPerm { spender, perm } if was_admin => {
+                self.perms.insert(spender.clone(), *perm);
             }
             Op::Execute { .. } if !was_admin => {
                 if let Some(a) = self.allow.get_mut(sender) {
